@@ -83,7 +83,7 @@ def listing_len(kind):
 
 class C22(UICheck):
     pid = "C22"
-    whys = {"crash", "stuck"}
+    whys = {"crash", "stuck", "rendercrash"}
     rule = ("sessions of 1-6 input lines on 4 programs (1-4 basic blocks): every command key of the three modes "
             "(disassembler, emulator, memory view) and unknown keys x numeric arguments {0, 1, around the listing length, "
             "2^63-1, 2^63, -1, +1, x, 007, 1e3, 0x10, 10^20} x missing / surplus arguments x spacing variants (leading, "
@@ -112,6 +112,12 @@ class C22(UICheck):
                 for t, a in nums(L):
                     pre = [] if rng.random() < 0.5 else [cmd("", ["goto", str(L - 1)], [{"kind": "num", "v": L - 1}])]
                     session(kind, pre + [cmd("", [c, t], [a])])
+            # commands that use the cursor, after navigating into the end region (also by values the listing does not have)
+            for navc in ("goto", "down"):
+                for v in (L - 2, L - 1, L, L + 1):
+                    nav = cmd("", [navc, str(v)], [{"kind": "num", "v": v}])
+                    for follow in (["e"], ["find", "addi"], ["bounds", str(v)], ["alllines"], ["d", "0"], ["u", "0"], ["entry"]):
+                        session(kind, [nav, cmd("", follow), {"case": "", "op": "render", "n": 8}, cmd("", ["s"])])
             # move with all pairs of interesting lines
             vals = [0, 1, 2, 3, L - 2, L - 1, L, L + 5]
             for a in vals:
@@ -246,6 +252,21 @@ class C23(UICheck):
             for _ in range(150 if tier == "quick" else 3000):
                 n = rng.choice([2, 3, 4, 6])
                 session(kind, [mv(rng.randrange(L), rng.randrange(L)) for _ in range(n)])
+            # every block move followed by moves of instruction lines of the new listing (and a second block move)
+            hdrs = {0: [0], 1: [0, 5, 9], 2: [0, 3, 8], 3: [0, 6]}[kind]
+            for ha in hdrs:
+                for hb in hdrs:
+                    if ha == hb:
+                        continue
+                    pairs = [(a, b) for a in range(L) for b in range(L) if a != b and abs(a - b) <= 3]
+                    if tier == "quick":
+                        pairs = rng.sample(pairs, min(len(pairs), 24))
+                    for a, b in pairs:
+                        tail = [mv(a, b)]
+                        if rng.random() < 0.3:
+                            tail.append(mv(rng.choice(hdrs), rng.choice(hdrs)))
+                            tail.append(mv(rng.randrange(L), rng.randrange(L)))
+                        session(kind, [mv(ha, hb)] + tail)
         return gs
 
 
